@@ -363,7 +363,7 @@ class EnvHist(Engine):
                 return ro.choice([["not", e], ["and", e, gsub.bool_expr(1)], ["or", gsub.bool_expr(0), e]])
             return ro.choice([["plus", e, gsub.num_expr(0)], ["le", e, gsub.num_expr(1)]])
 
-        nops = ro.randint(15, 40)
+        nops = ro.randint(15, 40) * (stream(seed, "size").choice([1, 1, 1, 2, 3]) if tier == "thorough" else 1)  # thorough: one run in three is a long history
         ops = []
         reject_rate = ro.choice([0.1, 0.2, 0.3]) if profile != "async" else ro.choice([0.0, 0.1])
         for i in range(nops):
